@@ -38,7 +38,7 @@ META = {
                   "decomposition (has_matrix False) have no independent second path for decomp.matrix and are counted separately. "
                   "Fractional Pow instances only with base eigenphases strictly inside (-pi, pi). Trusts numpy/scipy and pv/ref.",
     "shards": {"quick": 4, "thorough": 16},
-    "budget_s": {"quick": 70, "thorough": 170},
+    "budget_s": {"quick": 150, "thorough": 300},
     "min_evals": {"quick": 2500, "thorough": 40000},
     "min_nontrivial": {"quick": 250, "thorough": 2500},
     "deciding": ["flag.outcome", "sparse.matrix", "eigvals.multiset", "diag.gates", "decomp.matrix", "pauli.rep", "generator.exp"],
